@@ -185,6 +185,17 @@ CHECKS = {
         "source it cannot read is a hard error.",
    technique="translation of the parser's tables and actions into Coq with finite proofs by vm_compute, re-checked every run + differential of the translated parser vs sql.Parse",
    design="DESIGN.md section 6, C16"),
+ "C18": dict(
+   text="Coq: Row.Scan as a total function of (stored value | missing column) x destination kind (Model/RowScan.v) - every combination yields a value or an error, there is no third outcome; "
+        "the conversion table is proved entry by entry: NULL and missing columns give the zero value (C18_null, C18_missing), integers and reals convert by Go's rules incl. int32 wrap, "
+        "bool = (n != 0), amd64 float-to-int truncation (C18_integers, C18_reals), integer text is taken exactly over all of int64 and refused text is an error (C18_text_int, C18_text_bad), "
+        "unsupported destinations are errors (C18_unsupported); and a scanned []byte is a fresh buffer: writing to it changes no buffer that existed before (C18_copy, heap model). "
+        "Every run: every (value, destination) pair of a boundary grid and random argument lists against the extracted table; the row must stay unchanged; scan-overwrite-reread-close "
+        "histories on 512..65536-byte pages for blobs of every placement.",
+   note="strconv.FormatFloat / ParseFloat and time.Parse are parameters of the model: the harness records the real answers per case and hands them to the model (library behaviour is assumed, "
+        "not modelled). The decimal reader / writer of the model (ParseInt / FormatInt) is tested inside Coq on the int64 boundaries (a test), not proved inverse for all values.",
+   technique="Coq proof (conversion table by case analysis; copy semantics on a heap model) + exhaustive grid differential",
+   design="DESIGN.md section 6, C18"),
 }
 
 NOT_YET = {}
